@@ -198,55 +198,163 @@ def short_window_fact(fact):
     return None
 
 
-def nonempty_windows(body, bb):
-    """window fields known non-empty at bb (a dominating `!w.is_empty()` / `w.len() != 0` / `w.len() > c` edge)"""
-    out = set()
-    for f in facts_at(body, bb):
-        rel = f[0]
-        w = None
-        if rel == "Bool" and f[2] is False and (f[1].q or "").split("::")[-1] == "is_empty" and f[1].args:
-            w = window_of(f[1].args[0])
-        elif rel == "IntNe" and f[2] == 0:
-            w = len_of_window(f[1])
-        elif rel == "Ne":
-            w = (len_of_window(f[1]) if _is_zero(f[2]) else None) or (len_of_window(f[2]) if _is_zero(f[1]) else None)
-        elif rel == "Gt":
-            w = len_of_window(f[1])
-        elif rel == "Lt":
-            w = len_of_window(f[2])
-        if w:
-            out.add(w[0])
+def _const_int(e):
+    p = peel(e, through_try=False)
+    if p is not None and p.k == "const" and isinstance(p.v, int) and not isinstance(p.v, bool):
+        return p.v
+    return None
+
+
+_wep_cache = {}
+
+
+def window_empty_predicates(facts):
+    """{function q: stream field} for local methods whose result is `self.F`'s window `.is_empty()` (plain or inside Ok(..)):
+    wrapper summary so that `if self.output_full()? {..}` counts as the emptiness guard it is"""
+    k = id(facts)
+    if k in _wep_cache:
+        return _wep_cache[k]
+    out = {}
+    for b in facts.bodies:
+        if b.kind == "closure" or b.name == "work" or not b.self_adt:
+            continue
+        flds = set()
+        okall = True
+        n = 0
+        for bb, si, e in assigns_to_return(b):
+            p = peel(e, through_try=False)
+            if p.k == "agg" and p.adt == "std::result::Result":
+                if p.variant == "Err":
+                    continue
+                p = peel(p.args[0], through_try=False) if p.args else p
+            if p.k == "call" and (p.q or "").endswith("from_residual"):
+                continue
+            if p.k == "call" and (p.q or "").split("::")[-1] == "is_empty" and p.args:
+                w = window_of(p.args[0])
+                if w:
+                    flds.add(w[0])
+                    n += 1
+                    continue
+            okall = False
+        if okall and n and len(flds) == 1:
+            out[b.q] = flds.pop()
+    _wep_cache[k] = out
     return out
 
 
+def window_lower_bounds(body, bb, facts_obj=None):
+    """{window field: n} with len(window) >= n established at bb by dominating guards"""
+    out = {}
+    wep = window_empty_predicates(facts_obj) if facts_obj is not None else {}
+    if wep:
+        for f in facts_at(body, bb):
+            if f[0] in ("BoolVal", "Bool") and f[2] is False:
+                p = peel(f[1])
+                if p is not None and p.k == "call" and (p.q in wep or p.rq in wep):
+                    fld = wep.get(p.q) or wep.get(p.rq)
+                    out[fld] = max(out.get(fld, 0), 1)
+
+    def note(w, n):
+        if w and n > out.get(w[0], 0):
+            out[w[0]] = n
+    for f in facts_at(body, bb):
+        rel = f[0]
+        if rel == "Bool" and f[2] is False and (f[1].q or "").split("::")[-1] == "is_empty" and f[1].args:
+            note(window_of(f[1].args[0]), 1)
+        elif rel == "IntNe" and f[2] == 0:
+            note(len_of_window(f[1]), 1)
+        elif rel == "Ne":
+            note((len_of_window(f[1]) if _is_zero(f[2]) else None) or (len_of_window(f[2]) if _is_zero(f[1]) else None), 1)
+        elif rel in ("Gt", "Ge"):
+            c = _const_int(f[2])
+            note(len_of_window(f[1]), (c + (1 if rel == "Gt" else 0)) if c is not None else 1 if rel == "Gt" else 0)
+        elif rel in ("Lt", "Le"):
+            c = _const_int(f[1])
+            note(len_of_window(f[2]), (c + (1 if rel == "Lt" else 0)) if c is not None else 1 if rel == "Lt" else 0)
+    return out
+
+
+def nonempty_windows(body, bb):
+    return {w for w, n in window_lower_bounds(body, bb).items() if n >= 1}
+
+
+def _strip_rounding(x):
+    """(m, k): x == 0 <=> m < k for the round-down idioms m - (m & (k-1)), m & !(k-1), m / k, (m / k) * k; else (x, 1)"""
+    p = peel(x, through_try=False)
+    if p.k == "bin" and p.op == "Sub":
+        b = peel(p.b, through_try=False)
+        if b.k == "bin" and b.op == "BitAnd":
+            for u, v in ((b.a, b.b), (b.b, b.a)):
+                c = _const_int(v)
+                if c is not None and c > 0 and (c + 1) & c == 0 and same_expr(peel(u, through_try=False), peel(p.a, through_try=False)):
+                    return p.a, c + 1
+    if p.k == "bin" and p.op == "BitAnd":
+        for u, v in ((p.a, p.b), (p.b, p.a)):
+            pv = peel(v, through_try=False)
+            if pv.k == "un" and pv.op == "Not":
+                c = _const_int(pv.a)
+                if c is not None and (c + 1) & c == 0:
+                    return u, c + 1
+    if p.k == "bin" and p.op == "Mul":
+        for u, v in ((p.a, p.b), (p.b, p.a)):
+            pu = peel(u, through_try=False)
+            c = _const_int(v)
+            if c and pu.k == "bin" and pu.op == "Div" and _const_int(pu.b) == c:
+                return pu.a, c
+    if p.k == "bin" and p.op == "Div":
+        c = _const_int(p.b)
+        if c:
+            return p.a, c
+    return x, 1
+
+
 def several_windows_short_fact(fact, body=None, bb=None):
-    """fact `X == 0` / `X < c` where X is a minimum (min()/fold with a min closure) over len() of several windows:
-    returns the set of window fields, else None"""
+    """fact `X == 0` where X is (a rounding-down of) a minimum over scaled len()s of windows:
+    returns {window field: threshold} - X == 0 iff some window's len is below its threshold - else None"""
     rel = fact[0]
     xs = []
     if rel == "IntEq" and fact[2] == 0:
         xs = [fact[1]]
     elif rel == "Eq":
         xs = [fact[1]] if _is_zero(fact[2]) else ([fact[2]] if _is_zero(fact[1]) else [])
-    elif rel in ("Lt", "Le"):
-        xs = [fact[1]]
-    elif rel in ("Gt", "Ge"):
-        xs = [fact[2]]
     for x in xs:
-        p = peel(x, through_try=False)
-        if p.k == "call" and ((p.q in MIN_CALLS or p.rq in MIN_CALLS) or (p.q or "").split("::")[-1] in ("fold", "min")):
-            fields = set()
+        m, k = _strip_rounding(x)
+        p = peel(m, through_try=False)
+        if not (p.k == "call" and ((p.q in MIN_CALLS or p.rq in MIN_CALLS) or (p.q or "").split("::")[-1] in ("fold", "min"))):
+            continue
+        is_min2 = (p.q in MIN_CALLS or p.rq in MIN_CALLS) and len(p.args) == 2
+        thr = {}
+        others = []
+        if is_min2:
+            for a in p.args:
+                pa = peel(a, through_try=False)
+                w = len_of_window(pa)
+                if w:
+                    thr[w[0]] = max(thr.get(w[0], 0), k)
+                    continue
+                if pa.k == "bin" and pa.op in ("Mul", "Div"):
+                    w = len_of_window(pa.a) or len_of_window(pa.b)
+                    c = _const_int(pa.b) if len_of_window(pa.a) else _const_int(pa.a)
+                    if w and c:
+                        t = -(-k // c) if pa.op == "Mul" else k * c
+                        thr[w[0]] = max(thr.get(w[0], 0), t)
+                        continue
+                others.append(a)
+        else:
+            if k != 1:
+                continue
             for y in walk(p):
                 w = len_of_window(y)
                 if w:
-                    fields.add(w[0])
-            if len(fields) >= 2:
-                return fields
-            # min(X, len(W)) == 0 with X known positive here: W is the empty one
-            if len(fields) == 1 and body is not None and (p.q in MIN_CALLS or p.rq in MIN_CALLS) and len(p.args) == 2:
-                oth = [a for a in p.args if not len_of_window(a)]
-                if len(oth) == 1 and rel in ("IntEq", "Eq") and known_nonzero(body, bb, oth[0]):
-                    return fields
+                    thr[w[0]] = 1
+        if not thr:
+            continue
+        if others:
+            # a non-window operand must be known large enough not to be the cause
+            if body is None or k != 1 or not all(known_nonzero(body, bb, o) for o in others):
+                continue
+        if len(thr) >= 2 or others or k > 1:
+            return thr
     return None
 
 
@@ -277,15 +385,17 @@ def rule_r3(facts, col, bodies=None):
                 continue
             w = short_window_fact(fact)
             if w is None:
-                ws = several_windows_short_fact(fact, body, bb)
-                if ws:
-                    ws = ws - nonempty_windows(body, bb)
+                thr = several_windows_short_fact(fact, body, bb)
+                ws = None
+                if thr:
+                    lbs = window_lower_bounds(body, bb, facts)
+                    ws = {w for w, t in thr.items() if lbs.get(w, 0) < t}
                 if ws and len(ws) == 1 and tgt in ws:
-                    col.ok("C09.R3", key, body.where(bb), "min over windows is 0 and every other window was found non-empty: self.%s is the short one" % tgt)
+                    col.ok("C09.R3", key, body.where(bb), "min over windows is 0 and every other window is known long enough: self.%s is the short one" % tgt)
                 elif ws and len(ws) == 1:
                     col.bad("C09.R3", key, body.where(bb),
-                            "work() established that the window of self.%s is empty (the other operands of the min are known non-zero / "
-                            "non-empty here) but reports waiting for self.%s: the wait is satisfied at once (spin) or, when self.%s's peer "
+                            "work() established that the window of self.%s is too short (the other operands of the min are known large "
+                            "enough here) but reports waiting for self.%s: the wait is satisfied at once (spin) or, when self.%s's peer "
                             "is gone, the block is retired with data pending" % (sorted(ws)[0], tgt, tgt), {"short": sorted(ws)[0], "waits_on": tgt})
                 elif ws and len(ws) >= 2:
                     col.bad("C09.R3", key, body.where(bb),
